@@ -54,6 +54,18 @@ def cases(tier, rng):
             yield Case(f"str.lt {hexs(a)} {hexs(b)}", tag="lt-pair")
             yield Case(f"str.eq {hexs(a)} {hexs(b)}", tag="eq-pair")
             yield Case(f"path.eq {hexs(a)} {hexs(b)}", tag="patheq-pair")
+    # every byte value against its bit-neighbours (the other letter case lives at distance 0x20 — so does '[' from '{', '@' from
+    # '`', 0xC1 from 0xE1, which are NOT equal ignoring case), in both argument orders, for the comparator, IsEqual and path equality
+    for c in range(1, 256):
+        for d in sorted({c ^ 0x20, c ^ 0x80, c ^ 0x01, (c + 1) & 255, (c + 0x20) & 255, (c - 0x20) & 255} - {0, c}):
+            a = b"x" + bytes([c]); b = b"x" + bytes([d])
+            if c < d or (d ^ 0x20) != c and (d ^ 0x80) != c and (d ^ 0x01) != c:      # each unordered pair once per direction
+                yield Case(f"str.lt {hexs(a)} {hexs(b)}", tag="lt-pair")
+                yield Case(f"str.lt {hexs(b)} {hexs(a)}", tag="lt-pair")
+                yield Case(f"str.eq {hexs(a)} {hexs(b)}", tag="eq-pair")
+                yield Case(f"str.eq {hexs(b)} {hexs(a)}", tag="eq-pair")
+                yield Case(f"path.eq {hexs(a)} {hexs(b)}", tag="patheq-pair")
+                yield Case(f"path.eq {hexs(b)} {hexs(a)}", tag="patheq-pair")
     yield from cmpfn_cases()
     # irreflexivity / reflexivity: direct oracles
     for a in strings(3):
@@ -188,9 +200,10 @@ def relational_oracles(cases, outs):
         for b in short:
             if lt.get((a, b)) != "1" and pe.get((a, b)) != "1": continue
             for c in short:
-                if lt.get((a, b)) == "1" and lt.get((b, c)) == "1" and lt.get((a, c)) != "1":
+                # (pairs outside the exhaustive tables — the bit-neighbour pairs — are only judged where all three answers exist)
+                if lt.get((a, b)) == "1" and lt.get((b, c)) == "1" and lt.get((a, c)) not in ("1", None):
                     bad.append((idx[("lt", a, c)], lt.get((a, c)), f"comes-before not transitive on {a},{b},{c}"))
-                if pe.get((a, b)) == "1" and pe.get((b, c)) == "1" and pe.get((a, c)) != "1":
+                if pe.get((a, b)) == "1" and pe.get((b, c)) == "1" and pe.get((a, c)) not in ("1", None):
                     bad.append((idx[("pe", a, c)], pe.get((a, c)), f"PathsAreEqual not transitive on {a},{b},{c}"))
                 if len(bad) > 3: return bad
     return bad
